@@ -7,6 +7,7 @@
 
 mod core;
 mod craft;
+mod gtargets;
 mod props;
 mod refmodels;
 mod stubs;
@@ -17,6 +18,7 @@ use crate::core::*;
 fn main() {
     mcmc_sim::sim::install_quiet_panic_hook();
     let args: Vec<String> = std::env::args().collect();
+    if std::env::var("VERIF_DEBUG_TARGETS").is_ok() { debug_targets(); return; }
     craft::self_check();
     let props = props::all();
     if args.len() >= 3 && args[1] == "--replay" {
@@ -58,4 +60,24 @@ fn main() {
     }
     eprintln!("usage: vcheck <PROPERTY> <quick|thorough> | --replay <file>");
     std::process::exit(2);
+}
+
+#[allow(dead_code)]
+pub fn debug_targets() {
+    use burn::prelude::*;
+    use crate::gtargets::*;
+    use crate::zoo::BF64;
+    let mut g = crate::core::Gen::new(5);
+    for kind in [GKind::StudentT, GKind::Quartic, GKind::Funnel, GKind::Gauss] {
+        let mut t = if kind == GKind::Gauss { GTarget::gauss(&mut g, 3, 4.0) } else { GTarget::new(kind.clone(), 3) };
+        t.nu = 2.7182818;
+        let x = vec![0.0720297, 1.0555135, 4.0253916];
+        let xt = Tensor::<BF64, 2>::from_data(TensorData::new(x.clone(), [1, 3]), &Default::default());
+        let lp = t.batch(xt).to_data().convert::<f64>().to_vec::<f64>().unwrap()[0];
+        println!("{:?}: burn {:.17} analytic {:.17} rel {:e}", kind, lp, t.logp(&x), (lp - t.logp(&x)).abs() / t.logp(&x).abs());
+        let xt = Tensor::<BF64, 2>::from_data(TensorData::new(x.clone(), [1, 3]), &Default::default()).require_grad();
+        let l = t.batch(xt.clone());
+        let gr = xt.grad(&l.backward()).unwrap().to_data().convert::<f64>().to_vec::<f64>().unwrap();
+        println!("   grad burn {:?} analytic {:?}", gr, t.grad(&x));
+    }
 }
